@@ -98,13 +98,13 @@ def explore(ctx, fn, n, mode, kind, faults=1, loop_limit=None, preheld=None, add
         t = m["locals"][1]["ty"]
         base = t["ty"] if t["k"] == "ref" else t
         if base["k"] == "adt" and base["path"] in ("collection::BoxedLockCollection", "collection::RefLockCollection"):
-            from rules_struct import lock_list_field
-            lf = lock_list_field(ctx, base["path"])
+            from rules_struct import lock_list_path
+            lf = lock_list_path(ctx, base["path"])
             if lf is not None:
                 A_ = I.addrs[LID]
                 order = sorted(range(n), key=lambda k: A_[k])
                 items = [I.load(st, listmodel.elem_loc(LID, k)) for k in order]
-                st.heap[("O", "a1", ("*", lf))] = listmodel.make_list(I, st, items, _dyn_elem_ty())
+                st.heap[("O", "a1", ("*",) + tuple(lf))] = listmodel.make_list(I, st, items, _dyn_elem_ty())
     # precondition of release-style functions: the listed locks are held
     if preheld:
         for k in range(n):
